@@ -9,7 +9,8 @@ index, `ordered`/FeatureStrategy/booleans follow symbolic choices. That a drawn 
 one is enforced at run time by the output filter, whose dialect is checked here.
 """
 from vf.h import *
-from vf.util import pick
+from vf import det
+from vf.util import mk_case, pick, untraced
 
 import hypothesis.strategies as st
 from hypothesis.strategies._internal.featureflags import FeatureStrategy
@@ -44,6 +45,21 @@ RAW = {"openapi": "3.0.2", "info": {"title": "t", "version": "1"}, "paths": {
     "/none": {"get": dict(_OK)},
 }}
 SCHEMA = schemathesis.openapi.from_dict(RAW)
+det.pin(oh)  # openapi_cases reads time.monotonic() twice
+
+
+def _make_case(*, operation, **kwargs):
+    # APIOperation.Case -> schema.make_case -> Case(...): same construction with a fixed id (the random id factory is very slow under tracing)
+    body = kwargs.get("body")
+    if kwargs.get("media_type") is None and body is not NOT_SET and body is not None:
+        kwargs["media_type"] = operation._get_default_media_type()
+    kwargs = {k: v for k, v in kwargs.items() if k not in ("method", "path")}
+    return mk_case(operation, "case", **kwargs)
+
+
+SCHEMA.make_case = _make_case
+_real_can_negate = oh.can_negate
+oh.can_negate = lambda schema: untraced(_real_can_negate, schema)  # hypothesis-jsonschema's canonicalish on a concrete schema: run natively
 OPS = [SCHEMA["/all/{id}"]["POST"], SCHEMA["/str/{id}"]["POST"], SCHEMA["/q"]["GET"], SCHEMA["/none"]["GET"]]
 for _op in OPS:
     list(_op.iter_parameters())
@@ -352,7 +368,7 @@ OBLIGATIONS = [
                                                                          "schemathesis.specs.openapi._hypothesis.ValueContainer"],
        symbolic="operation (4 shapes: everything negatable / string-only headers+path and `{}` body / query only / nothing), modes [negative] or [positive, negative], presence of a drawn value per location",
        bounds="4 operations x 2^5 presence patterns x 2 mode lists",
-       stubs=["draw() returns scripted values; strategy factories replaced by markers naming the generator that built them", "hooks bypassed"],
+       stubs=["draw() returns scripted values; strategy factories replaced by markers naming the generator that built them", "hooks bypassed", "can_negate (hypothesis-jsonschema canonicalish on concrete schemas) evaluated outside tracing", "clock and case id pinned"],
        outside=["that a drawn instance of a mutated schema is invalid (run-time filter; its dialect is checked by output_filter)"]),
     Ob(fn="output_filter", clause="every part labelled negative violates the declared schema: the output filter judges by the declared (draft 4) meaning, incl. boolean exclusiveMinimum",
        timeout={"quick": 300, "thorough": 600}, functions=["schemathesis.specs.openapi.negative.negative_schema", "schemathesis.specs.openapi.negative.get_validator"],
